@@ -92,4 +92,14 @@ def satSubS {w : Nat} (a b : BitVec w) : BitVec w :=
 def satAddU {w : Nat} (a b : BitVec w) : BitVec w :=
   BitVec.ofNat w (min (2 ^ w - 1) (a.toNat + b.toNat))
 
+/-! ### the register type of the vector-extension contexts (vector_extension.hpp:19-20) -/
+
+/-- lanes of `vector_type_t<bit_width,T>` = `T __attribute__((vector_size(bit_width / sizeof(T))))`: the attribute
+    counts BYTES, so the type has `bit_width / sizeof(T)` bytes = `bit_width / sizeof(T) / sizeof(T)` lanes -/
+def vecExtTypeLanes (bitWidth szBytes : Nat) : Nat := bitWidth / szBytes / szBytes
+
+/-- lanes that `loadu` / `storeu` / `set1` fill: `n_elements = bit_width / (sizeof(T) * 8)`; the remaining lanes of the
+    register variable stay uninitialised and take part in `x + y`, `x - y`, `x * y` -/
+def vecExtUsedLanes (bitWidth szBytes : Nat) : Nat := bitWidth / (szBytes * 8)
+
 end NmVerif.Simd
